@@ -1164,11 +1164,17 @@ func parseRaceReports(out string, pkgs []string) map[int][]string {
 			for ; j < len(lines) && !strings.HasPrefix(lines[j], "=================="); j++ {
 				h := lines[j]
 				if len(acc) < 2 && strings.Contains(h, " at 0x") && strings.HasSuffix(strings.TrimSpace(h), ":") && j+2 < len(lines) {
-					fn := strings.TrimSpace(lines[j+1])
+					// the access is attributed to the first frame outside the runtime (map operations are reported
+					// from runtime.mapassign / mapaccess / mapdelete)
+					f0 := j + 1
+					for f0+3 < len(lines) && (strings.HasPrefix(strings.TrimSpace(lines[f0]), "runtime.") || strings.HasPrefix(strings.TrimSpace(lines[f0]), "internal/runtime/")) && strings.TrimSpace(lines[f0+2]) != "" {
+						f0 += 2
+					}
+					fn := strings.TrimSpace(lines[f0])
 					if k := strings.LastIndex(fn, "("); k > 0 {
 						fn = fn[:k]
 					}
-					file := strings.TrimSpace(lines[j+2])
+					file := strings.TrimSpace(lines[f0+1])
 					if k := strings.Index(file, " "); k > 0 {
 						file = file[:k]
 					}
